@@ -32,7 +32,7 @@
   the aspiration loop has a counter as well (`fuel`), and there the generic skeleton does NOT terminate:
   `go_window0_never_terminates` — for every component record with `windowSize = 0`, `go depth N`
   exhausts every amount of fuel (the Go loop `for !awOk` spins on the window `(s, s)`).  With
-  `AspLaws` (`WindowSize = 44`) a chain has at most ten failures as long as results stay within `±Inf`,
+  `AspLaws` (`WSafe windowSize`: 39..44 or 78..88; the real 44 is a regenerated constant) a chain has at most ten failures as long as results stay within `±Inf`,
   which is the score-range theorem and carries its run-level hypothesis `ttOut = false` (no out-of-band
   value handed to a table store; void for components with the null-move guard `NmpFloor`).
 -/
